@@ -8,7 +8,7 @@ R  spec -> code : the model's stop placements (every label of the searcher, ever
 T  code -> spec : every run's real stdout and hook counters are validated by the SearchTrace monitor against the rules specification
                   (legality of bestmove / pv), the session properties and the mate oracle.
 """
-import json, os, random, shutil, subprocess, sys
+import json, os, subprocess, time, random, shutil, sys
 import core, build
 from core import Check, InfraError, SPEC, VERIF
 
@@ -487,6 +487,56 @@ def c09(tier):
     return ck.finish()
 
 
+def process_session(engine, script, env_extra, limit_s=20):
+    """drive the engine's own executable through pipes: lines are sent as they are; `@sleep ms` waits; `@wait prefix` waits for an
+    output line with that prefix; after the last line stdin is closed.  Returns exit status (negative = signal), sanitizer report, stderr."""
+    import threading
+    env = dict(os.environ)
+    env.update(env_extra or {})
+    t0 = time.time()
+    p = subprocess.Popen([engine], stdin=subprocess.PIPE, stdout=subprocess.PIPE, stderr=subprocess.PIPE, text=True, env=env, bufsize=1)
+    lines, errs = [], []
+    cond = threading.Condition()
+    def rd():
+        for l in p.stdout:
+            with cond:
+                lines.append(l.rstrip("\n"))
+                cond.notify_all()
+    def rd_err():
+        for l in p.stderr:
+            errs.append(l)
+    th = threading.Thread(target=rd, daemon=True)
+    th.start()
+    te = threading.Thread(target=rd_err, daemon=True)
+    te.start()
+    try:
+        for c in script:
+            if c.startswith("@sleep"):
+                time.sleep(int(c.split()[1]) / 1000.0)
+            elif c.startswith("@wait"):
+                pre = c.split(None, 1)[1]
+                seen = len([l for l in lines if l.startswith(pre)])
+                with cond:
+                    cond.wait_for(lambda: len([l for l in lines if l.startswith(pre)]) > seen or any(l.startswith(pre) for l in lines), timeout=limit_s)
+            else:
+                p.stdin.write(c + "\n")
+                p.stdin.flush()
+        p.stdin.close()
+    except (BrokenPipeError, OSError):
+        pass
+    try:
+        rc = p.wait(timeout=limit_s)
+    except subprocess.TimeoutExpired:
+        p.kill()
+        p.wait()
+        rc = "timeout"
+    th.join(timeout=2)
+    te.join(timeout=2)
+    err = "".join(errs)
+    first = [l for l in err.splitlines() if "runtime error:" in l or "ERROR: AddressSanitizer" in l or "ERROR: ThreadSanitizer" in l]
+    return dict(exit=rc, report=first[0][:300] if first else "", stderr=err, seconds=round(time.time() - t0, 2), out=lines)
+
+
 # ------------------------------------------------------------------ C10
 BIG = [l.strip() for l in open(os.path.join(DATA, "roots_big.fen")) if l.strip() and not l.startswith("#")]
 TINY = ["8/8/4k3/8/8/8/8/4K3 w - - 0 1", "7k/5K2/8/6P1/8/8/8/8 b - - 0 1", "k7/8/1K6/8/8/8/8/7R w - - 0 1", "8/8/8/3k4/8/8/8/3K4 w - - 0 1"]
@@ -498,9 +548,9 @@ def c10(tier):
     exe = build.build("asan")
     full = tier == "thorough"
     rnd = random.Random(core.seed())
-    # D: the index-bound invariants of the design
-    ck.cov["design"] = design(ck)
-    ck.cov["design_as_written"] = design_as_written(ck, ["no_clamp"])
+    # D: the index-bound invariants of the design; the search thread is gone when the command loop is left (ExitSafe)
+    ck.cov["design"] = design(ck, ("SearchSession_quit.cfg",))
+    ck.cov["design_as_written"] = design_as_written(ck, ["no_clamp", "detached"])
     asan_env = {"ASAN_OPTIONS": "detect_leaks=0:abort_on_error=0:exitcode=66", "UBSAN_OPTIONS": "print_stacktrace=1:halt_on_error=1:exitcode=67"}
     sessions = []   # (name, script lines, wellformedness trace or None)
 
@@ -576,6 +626,31 @@ def c10(tier):
                 ck.discrepancy({"kind": "go_not_answered", "session": name}, dict(prop="C10", kind="go_not_answered", session=name, detail=summ))
             if summ["max_depth_index"] > 40 or summ["max_ply"] + 1 >= 80:
                 ck.discrepancy({"kind": "index_out_of_bounds", "session": name}, dict(prop="C10", kind="index_out_of_bounds", session=name, detail=summ))
+    # 6. the end of a session, as whole processes of the engine's own executable (same tree, same sanitizers): `quit` or end of input may
+    #    arrive while a search is running; the process must leave with status 0, promptly, without a sanitizer report or a signal
+    engine = build.engine_exe("asan")
+    busy_fen = "r1b1k2r/ppppqppp/2n2n2/2b1p3/2B1P3/2N2N2/PPPPQPPP/R1B1K2R w KQkq - 0 1"
+    ends = [("quit_while_searching", ["position startpos", "go infinite", "@sleep 150", "quit"]),
+            ("quit_while_searching_deep", ["position fen " + busy_fen, "go depth 30", "@sleep 60", "quit"]),
+            ("quit_right_after_go", ["position startpos", "go infinite", "quit"]),
+            ("end_of_input_while_searching", ["position startpos", "go infinite", "@sleep 100"]),
+            ("quit_after_stop", ["position startpos", "go infinite", "@sleep 50", "stop", "@wait bestmove", "quit"]),
+            ("quit_after_bestmove", ["position fen " + busy_fen, "go movetime 30", "@wait bestmove", "quit"]),
+            ("quit_idle", ["uci", "isready", "ucinewgame", "quit"])]
+    end_results = []
+    for name, script in ends:
+        for rep in range(8 if full else 4):
+            # alternately the sanitizer build (reports) and the plain build (natural timing, exit status / signal)
+            res = process_session(engine if rep % 2 == 0 else build.engine_exe("plain"), script, asan_env if rep % 2 == 0 else {})
+            end_results.append(dict(session=name, build="asan" if rep % 2 == 0 else "plain", **{k: res[k] for k in ("exit", "seconds")}))
+            bad = res["exit"] != 0 or res["report"]
+            if bad:
+                kind = "crash_at_end_of_session" if res["exit"] < 0 or res["exit"] in (66, 67, 139, 134) or res["report"] else "abnormal_exit"
+                if res["exit"] == "timeout":
+                    kind = "process_does_not_end"
+                ck.discrepancy({"kind": kind, "session": name},
+                               dict(prop="C10", kind=kind, session=name, detail=dict(script=script, exit=res["exit"], report=res["report"], stderr_tail=res["stderr"][-1200:])))
+    ck.cov["end_of_session_runs"] = end_results
     # well-formedness of the generated long games, decided by the rules specification
     viols, cnt, st = core.validate_shards(wf_shards)
     ck.add_states(st["generated"], st["distinct"])
